@@ -658,6 +658,22 @@ Definition fresh (f : nat) (d : disk) (rq : req) : res ans := snd (request Repai
 (* REF proper: a pure, cache-free, fuel-bounded function of the disk *)
 Definition ref_answer (f : nat) (d : disk) (rq : req) : option ans := panswer (know_disk d) d f rq.
 
+(* acyclic projects: every import edge between modules on disk goes to a module of smaller rank *)
+Definition targets_of (b : binding) : list modname :=
+  match b with
+  | BDef _ _ => []
+  | BImport _ m => [m]
+  | BFrom _ m _ => [m]
+  | BStar m => [m]
+  end.
+Definition on_disk (d : disk) (m : modname) : bool :=
+  match dlookup d m with Some _ => true | None => false end.
+Definition ranked (d : disk) (rk : modname -> nat) : Prop :=
+  forall m t c b m', dlookup d m = Some (t, c) -> In b c -> In m' (targets_of b) ->
+                     on_disk d m' = true -> rk m' < rk m.
+Definition rank_bound (d : disk) (rk : modname -> nat) (R : nat) : Prop :=
+  forall m, on_disk d m = true -> rk m < R.
+
 (* ---- histories ----------------------------------------------------------------------------------- *)
 
 Inductive op : Type :=
